@@ -17,10 +17,13 @@ package aggregation
 //@   ensures forall i in [0, len(result)) :: result[i] != nil
 //@ func (*TableRow).Value
 //@   pure
-//@   trusted
+//@   ensures result == (if in_dom(s.cols, colKey) then map_get(s.cols, colKey) else 0)
 //@ func (*TableRow).Name
 //@   pure
-//@   trusted
+//@   ensures result == s.name
+//@ func (*TableRow).Sum
+//@   pure
+//@   ensures result == s.sum
 
 // ================= C07: aggregators hold the exact fold of their sample history =================
 // Step contracts: each Sample / SampleValue / SampleItem call changes exactly the cell(s) of its
@@ -59,3 +62,50 @@ package aggregation
 //@   ensures [plain] str_index(element, "\x00") < 0 && fits(old(cnt(s, element)) + 1) && fits(old(s.total) + 1) ==> (forall k: str :: cnt(s, k) == old(cnt(s, k)) + (if k == element then 1 else 0)) && s.errors == old(s.errors) && s.total == old(s.total) + 1
 //@   ensures [valued] str_index(element, "\x00") >= 0 && int_ok(fld1(element)) && fits(old(cnt(s, fld0(element))) + atoi(fld1(element))) && fits(old(s.total) + atoi(fld1(element))) ==> (forall k: str :: cnt(s, k) == old(cnt(s, k)) + (if k == fld0(element) then atoi(fld1(element)) else 0)) && s.errors == old(s.errors) && s.total == old(s.total) + atoi(fld1(element))
 //@   ensures [parse-error] str_index(element, "\x00") >= 0 && !int_ok(fld1(element)) && old(s.errors) < 18446744073709551615 ==> (forall k: str :: cnt(s, k) == old(cnt(s, k))) && s.errors == old(s.errors) + 1 && s.total == old(s.total)
+
+// ---- TableAggregator ----
+// representation invariant: every row key maps to its own live row; every row has its own cell map
+//@ pred wf_table(s) := s.rows != nil && s.cols != nil
+//@      && (forall k: str :: in_dom(s.rows, k) ==> map_get(s.rows, k) != nil && allocated(map_get(s.rows, k)) && map_get(s.rows, k).cols != nil && allocated(map_get(s.rows, k).cols) && map_get(s.rows, k).cols != s.cols)
+//@      && (forall a: str :: forall b: str :: in_dom(s.rows, a) && in_dom(s.rows, b) && a != b ==> map_get(s.rows, a) != map_get(s.rows, b) && map_get(s.rows, a).cols != map_get(s.rows, b).cols)
+//@      && allocated(s.cols) && allocated(s.rows)
+// cell / row total / column total as shown by the accessors (absent = 0)
+//@ pred cell(s, r, c) := if in_dom(s.rows, r) && in_dom(map_get(s.rows, r).cols, c) then map_get(map_get(s.rows, r).cols, c) else 0
+//@ pred rowsum(s, r) := if in_dom(s.rows, r) then map_get(s.rows, r).sum else 0
+//@ pred coltotal(s, c) := if in_dom(s.cols, c) then map_get(s.cols, c) else 0
+
+//@ func NewTable
+//@   ensures wf_table(result) && result.errors == 0 && result.delim == delim
+//@   ensures (forall k: str :: !in_dom(result.rows, k)) && (forall k: str :: !in_dom(result.cols, k))
+
+// one sample adds inc to exactly one cell, its row total and its column total
+//@ func (*TableAggregator).SampleItem
+//@   requires wf_table(s)
+//@   ensures wf_table(s) && s.errors == old(s.errors) && s.delim == old(s.delim)
+//@   ensures [cell] fits(old(cell(s, rowKey, colKey)) + inc) ==> forall r: str :: forall c: str :: cell(s, r, c) == old(cell(s, r, c)) + (if r == rowKey && c == colKey then inc else 0)
+//@   ensures [row-total] fits(old(rowsum(s, rowKey)) + inc) ==> forall r: str :: rowsum(s, r) == old(rowsum(s, r)) + (if r == rowKey then inc else 0)
+//@   ensures [col-total] fits(old(coltotal(s, colKey)) + inc) ==> forall c: str :: coltotal(s, c) == old(coltotal(s, c)) + (if c == colKey then inc else 0)
+//@   ensures [row-names] forall r: str :: in_dom(s.rows, r) ==> map_get(s.rows, r).name == (if old(in_dom(s.rows, r)) then old(map_get(s.rows, r).name) else rowKey)
+
+//@ func (*TableAggregator).ColTotal
+//@   requires s.cols != nil
+//@   pure
+//@   ensures result == coltotal(s, k)
+
+// Sample("col<d>row<d>n"): three fields split at the delimiter d; a missing row is "", a missing
+// increment is 1, a non-integer increment is a parse error that changes no cell.
+//@ pred tf0(e, d) := if str_index(e, d) < 0 then e else e[0:str_index(e, d)]
+//@ pred tn1(e, d) := str_index(e, d) + len(d)
+//@ pred tf1(e, d) := e[tn1(e, d) : (if str_index(e[tn1(e, d):], d) < 0 then len(e) else tn1(e, d) + str_index(e[tn1(e, d):], d))]
+//@ pred tn2(e, d) := tn1(e, d) + str_index(e[tn1(e, d):], d) + len(d)
+//@ pred tf2(e, d) := e[tn2(e, d) : (if str_index(e[tn2(e, d):], d) < 0 then len(e) else tn2(e, d) + str_index(e[tn2(e, d):], d))]
+//@ func (*TableAggregator).Sample
+//@   requires wf_table(s) && len(s.delim) >= 1
+//@   ensures wf_table(s)
+//@   assert at "inc, err := strconv.ParseInt(part2, 10, 64)" : part0 == tf0(ele, s.delim) && part1 == tf1(ele, s.delim) && part2 == tf2(ele, s.delim)
+//@   ensures [one-field] str_index(ele, s.delim) < 0 && fits(old(cell(s, "", ele)) + 1) ==> (forall r: str :: forall c: str :: cell(s, r, c) == old(cell(s, r, c)) + (if r == "" && c == ele then 1 else 0)) && s.errors == old(s.errors)
+//@   ensures [two-fields] str_index(ele, s.delim) >= 0 && str_index(ele[tn1(ele, s.delim):], s.delim) < 0 && fits(old(cell(s, tf1(ele, s.delim), tf0(ele, s.delim))) + 1) ==> (forall r: str :: forall c: str :: cell(s, r, c) == old(cell(s, r, c)) + (if r == tf1(ele, s.delim) && c == tf0(ele, s.delim) then 1 else 0)) && s.errors == old(s.errors)
+//@   ensures [three-fields] str_index(ele, s.delim) >= 0 && str_index(ele[tn1(ele, s.delim):], s.delim) >= 0 && int_ok(tf2(ele, s.delim)) && fits(old(cell(s, tf1(ele, s.delim), tf0(ele, s.delim))) + atoi(tf2(ele, s.delim))) ==>
+//@              (forall r: str :: forall c: str :: cell(s, r, c) == old(cell(s, r, c)) + (if r == tf1(ele, s.delim) && c == tf0(ele, s.delim) then atoi(tf2(ele, s.delim)) else 0)) && s.errors == old(s.errors)
+//@   ensures [parse-error] str_index(ele, s.delim) >= 0 && str_index(ele[tn1(ele, s.delim):], s.delim) >= 0 && !int_ok(tf2(ele, s.delim)) && old(s.errors) < 18446744073709551615 ==>
+//@              (forall r: str :: forall c: str :: cell(s, r, c) == old(cell(s, r, c))) && s.errors == old(s.errors) + 1
